@@ -250,6 +250,16 @@ func extractC08(c *ctx) (Facts, error) {
 		// the adapter drops nothing but can return no messages
 		facts["AddNoPublisherHandler_adapter_returns_nil_messages"] = strings.Contains(c.src(fd), "return nil, handlerFunc(msg)")
 	}
+	// ---- decorateHandlerPublisher: a handler without a publisher is left alone (first statement: if h.publisher == nil { return nil })
+	if fd := get(rel, "Router", "decorateHandlerPublisher"); fd != nil && len(fd.Type.Params.List) == 1 && len(fd.Body.List) > 0 {
+		hp := fd.Type.Params.List[0].Names[0].Name
+		ok := false
+		if is, isIf := fd.Body.List[0].(*ast.IfStmt); isIf && is.Init == nil && is.Else == nil &&
+			c.src(is.Cond) == hp+".publisher == nil" && c.src(is.Body) == "{ return nil }" {
+			ok = true
+		}
+		facts["decorateHandlerPublisher_skips_nil_publisher"] = ok
+	}
 	if fd := get(rel, "disabledPublisher", "Publish"); fd != nil {
 		facts["disabledPublisher_publish_only_errors"] = len(fd.Body.List) == 1 && c.src(fd.Body.List[0]) == "return ErrOutputInNoPublisherHandler"
 	}
